@@ -770,4 +770,424 @@ theorem loopInv_step (limit : Nat) (p : Proc) (o : Obs) (h : LoopInv limit p) : 
   | terminated oc =>
     exact ⟨h1, h2, h3, h4, h5, h6, h7, h8⟩
 
+/-! ## the composed system -/
+
+/-- the request is the leader of `g` and still owes its deferred DoneGeneration -/
+def Leads (p : Proc) (g : Nat) : Prop := p.pc = .leading (some g) ∨ ∃ o, p.pc = .finishing (some g) o
+
+/-- tokens a request holds are tokens the wait group handed out -/
+def TokOK (n : Nat) (p : Proc) : Prop :=
+  (∀ g, p.pc = .waiting g → g < n) ∧ (∀ g, p.previous = some g → g < n)
+
+structure SInv (s : Sys) : Prop where
+  valid : WGValid s.wg
+  ginv : AllG GInv s.wg.gens
+  len : s.leaderOf.length = s.wg.gens.length
+  lead : ∀ (g q : Nat), s.leaderOf[g]? = some q →
+    ∃ p gg, s.procs[q]? = some p ∧ s.wg.gens[g]? = some gg ∧ (Leads p g ∨ gg.leaderDone = true)
+  tok : ∀ (i : Nat) (p : Proc), s.procs[i]? = some p → TokOK s.wg.gens.length p
+
+theorem sinv_init : SInv {} := by
+  refine ⟨valid_init, ?_, rfl, ?_, ?_⟩
+  · intro j g h; simp at h
+  · intro g q h; simp at h
+  · intro i p h; simp at h
+
+theorem tok_mono {n m : Nat} (h : n ≤ m) {p : Proc} (t : TokOK n p) : TokOK m p :=
+  ⟨fun g hg => Nat.lt_of_lt_of_le (t.1 g hg) h, fun g hg => Nat.lt_of_lt_of_le (t.2 g hg) h⟩
+
+theorem step_len_of_none (w : WG) (op : Op) (h : (w.step op).2 = none) :
+    (w.step op).1.gens.length = w.gens.length := by
+  have := step_leader w op
+  rw [h] at this
+  exact this
+
+theorem step_valid (w : WG) (op : Op) (hv : WGValid w)
+    (hprev : ∀ k p, op = .regroup k (some p) → p < w.gens.length) :
+    WGValid (w.step op).1 ∧ ∀ r, (w.step op).2 = some r → r.1 < (w.step op).1.gens.length := by
+  cases op with
+  | join k =>
+    have := valid_join w k hv
+    refine ⟨this.1, fun r h => ?_⟩
+    simp only [WG.step, Option.some.injEq] at h
+    subst h; exact this.2
+  | regroup k prev =>
+    have := valid_regroup w k prev hv (fun p hp => hprev k p (by rw [hp]))
+    refine ⟨this.1, fun r h => ?_⟩
+    simp only [WG.step, Option.some.injEq] at h
+    subst h; exact this.2
+  | done k g => exact ⟨valid_done w k g hv, fun r h => by simp [WG.step] at h⟩
+  | timeout g => exact ⟨valid_timeout w g hv, fun r h => by simp [WG.step] at h⟩
+
+/-- what one `run` step of process `p` guarantees -/
+structure RunSpec (limit : Nat) (w : WG) (p : Proc) (o0 : Obs) : Prop where
+  gens : GensStep w.gens (interact limit w p o0).1.gens
+  valid : WGValid (interact limit w p o0).1
+  newLeader : (interact limit w p o0).2.2 = true →
+    (interact limit w p o0).1.gens.length = w.gens.length + 1 ∧
+    (p.step limit (interact limit w p o0).2.1).pc = .leading (some w.gens.length)
+  noLeader : (interact limit w p o0).2.2 = false → (interact limit w p o0).1.gens.length = w.gens.length
+  tok : TokOK (interact limit w p o0).1.gens.length (p.step limit (interact limit w p o0).2.1)
+  lead : ∀ g gg, w.gens[g]? = some gg → gg.dups = 1 → Leads p g →
+    Leads (p.step limit (interact limit w p o0).2.1) g ∨
+    ∃ gg', (interact limit w p o0).1.gens[g]? = some gg' ∧ gg'.leaderDone = true
+
+theorem not_leads_of {p : Proc} {g : Nat} (h : ∀ og, p.pc ≠ .leading og) (h' : ∀ og o, p.pc ≠ .finishing og o) :
+    ¬ Leads p g := by
+  rintro (hl | ⟨o, hf⟩)
+  · exact h _ hl
+  · exact h' _ _ hf
+
+theorem run_spec (limit : Nat) (w : WG) (p : Proc) (o0 : Obs) (hv : WGValid w) (ht : TokOK w.gens.length p) :
+    RunSpec limit w p o0 := by
+  cases hpc : p.pc with
+  | start =>
+    have nl : ∀ g, ¬ Leads p g := fun g => not_leads_of (by simp [hpc]) (by simp [hpc])
+    by_cases hint : p.internal = true
+    · have hi : interact limit w p o0 = (w, o0, false) := by simp [interact, hpc, hint]
+      have hs : p.step limit o0 = { p with pc := .leading none } := by simp [Proc.step, hpc, hint]
+      refine ⟨by rw [hi]; exact gensStep_refl _, by rw [hi]; exact hv, by rw [hi]; simp, by rw [hi]; simp, ?_,
+        fun g gg _ _ hl => absurd hl (nl g)⟩
+      rw [hi, hs]
+      exact ⟨fun g hg => by simp at hg, ht.2⟩
+    · cases hc : p.headCall limit with
+      | none =>
+        have hi : interact limit w p o0 = (w, o0, false) := by simp [interact, hpc, hint, hc]
+        have hs : p.step limit o0 = ({ p with heads := p.heads + 1 }).finish .probeLimit := by
+          simp [Proc.step, hpc, hint, hc]
+        refine ⟨by rw [hi]; exact gensStep_refl _, by rw [hi]; exact hv, by rw [hi]; simp, by rw [hi]; simp, ?_,
+          fun g gg _ _ hl => absurd hl (nl g)⟩
+        rw [hi, hs]
+        exact ⟨fun g hg => by simp [Proc.finish] at hg, ht.2⟩
+      | some op =>
+        have hop : ∀ k q, op = .regroup k (some q) → q < w.gens.length := by
+          intro k q hq
+          subst hq
+          unfold Proc.headCall at hc
+          split at hc
+          · split at hc
+            · cases hc
+            · simp only [Option.some.injEq, Op.regroup.injEq] at hc
+              exact ht.2 q hc.2
+          · cases hc
+        have hsv := step_valid w op hv hop
+        have hout : ∃ g l, (w.step op).2 = some (g, l) := by
+          unfold Proc.headCall at hc
+          split at hc
+          · split at hc
+            · cases hc
+            · cases hc; exact ⟨_, _, rfl⟩
+          · cases hc; exact ⟨_, _, rfl⟩
+        obtain ⟨g, l, hgl⟩ := hout
+        have hi : interact limit w p o0 = ((w.step op).1, { o0 with gen := g, leader := l }, l) := by
+          simp [interact, hpc, hint, hc, hgl]
+        have hlead := step_leader w op
+        rw [hgl] at hlead
+        have hgv : g < (w.step op).1.gens.length := hsv.2 (g, l) hgl
+        cases l with
+        | true =>
+          simp only at hlead
+          have hs : (p.step limit { o0 with gen := g, leader := true }).pc = .leading (some g) := by
+            simp [Proc.step, hpc, hint, hc]
+          have hprev : (p.step limit { o0 with gen := g, leader := true }).previous = p.previous := by
+            simp [Proc.step, hpc, hint, hc]
+          refine ⟨by rw [hi]; exact step_gens w op, by rw [hi]; exact hsv.1,
+            by rw [hi]; intro _; exact ⟨hlead.2, by rw [hs, hlead.1]⟩, by rw [hi]; simp, ?_,
+            fun g' gg _ _ hl => absurd hl (nl g')⟩
+          rw [hi]
+          exact ⟨fun g' hg' => (by rw [hs] at hg'; cases hg'),
+            fun g' hg' => (by rw [hprev] at hg'; have := ht.2 g' hg'; show g' < (w.step op).1.gens.length; omega)⟩
+        | false =>
+          simp only at hlead
+          have hs : (p.step limit { o0 with gen := g, leader := false }).pc = .waiting g := by
+            simp [Proc.step, hpc, hint, hc]
+          have hprev : (p.step limit { o0 with gen := g, leader := false }).previous = p.previous := by
+            simp [Proc.step, hpc, hint, hc]
+          refine ⟨by rw [hi]; exact step_gens w op, by rw [hi]; exact hsv.1,
+            by rw [hi]; simp, by rw [hi]; intro _; exact hlead, ?_,
+            fun g' gg _ _ hl => absurd hl (nl g')⟩
+          rw [hi]
+          exact ⟨fun g' hg' => (by rw [hs] at hg'; cases hg'; exact hgv),
+            fun g' hg' => (by rw [hprev] at hg'; have := ht.2 g' hg'; show g' < (w.step op).1.gens.length; omega)⟩
+  | waiting g =>
+    have nl : ∀ g, ¬ Leads p g := fun g => not_leads_of (by simp [hpc]) (by simp [hpc])
+    have hg := ht.1 g hpc
+    have hi : interact limit w p o0 =
+        (w, { o0 with genClosed := genClosed w g, genTimedOut := genTimedOut w g }, false) := by
+      simp [interact, hpc]
+    refine ⟨by rw [hi]; exact gensStep_refl _, by rw [hi]; exact hv, by rw [hi]; simp, by rw [hi]; simp, ?_,
+      fun g gg _ _ hl => absurd hl (nl g)⟩
+    rw [hi]
+    simp only [Proc.step, hpc]
+    constructor
+    · intro g' hg'
+      repeat' split at hg'
+      all_goals first
+        | (simp [Proc.finish] at hg'; done)
+        | (rw [hpc] at hg'; cases hg'; exact hg)
+        | (cases hg')
+    · intro g' hg'
+      repeat' split at hg'
+      all_goals first
+        | (simp only [Proc.finish] at hg'; exact ht.2 g' hg')
+        | (simp only at hg'; cases hg'; exact hg)
+        | exact ht.2 g' hg'
+  | leading og =>
+    have hi : interact limit w p o0 = (w, o0, false) := by simp [interact, hpc]
+    refine ⟨by rw [hi]; exact gensStep_refl _, by rw [hi]; exact hv, by rw [hi]; simp, by rw [hi]; simp, ?_, ?_⟩
+    · rw [hi]
+      simp only [Proc.step, hpc]
+      split <;> exact ⟨fun g hg => by simp at hg, ht.2⟩
+    · intro g gg _ _ hl
+      left
+      rw [hi]
+      rcases hl with hl | ⟨o, hf⟩
+      · rw [hpc] at hl; cases hl
+        simp only [Proc.step, hpc]
+        split <;> exact Or.inr ⟨_, rfl⟩
+      · rw [hpc] at hf; cases hf
+  | finishing og oc =>
+    cases og with
+    | none =>
+      have nl : ∀ g, ¬ Leads p g := by
+        rintro g (hl | ⟨o, hf⟩)
+        · rw [hpc] at hl; cases hl
+        · rw [hpc] at hf; cases hf
+      have hi : interact limit w p o0 = (w, o0, false) := by simp [interact, hpc]
+      refine ⟨by rw [hi]; exact gensStep_refl _, by rw [hi]; exact hv, by rw [hi]; simp, by rw [hi]; simp, ?_,
+        fun g gg _ _ hl => absurd hl (nl g)⟩
+      rw [hi]
+      simp only [Proc.step, hpc]
+      exact ⟨fun g hg => by simp at hg, ht.2⟩
+    | some g =>
+      have hi : interact limit w p o0 = (w.done p.key g, o0, false) := by simp [interact, hpc]
+      have hlen : (w.done p.key g).gens.length = w.gens.length :=
+        step_len_of_none w (.done p.key g) rfl
+      refine ⟨by rw [hi]; exact step_gens w (.done p.key g), by rw [hi]; exact valid_done w _ _ hv,
+        by rw [hi]; simp, by rw [hi]; intro _; exact hlen, ?_, ?_⟩
+      · rw [hi]
+        simp only [Proc.step, hpc, hlen]
+        exact ⟨fun g hg => by simp at hg, ht.2⟩
+      · intro g' gg hgg hd hl
+        right
+        rw [hi]
+        rcases hl with hl | ⟨o, hf⟩
+        · rw [hpc] at hl; cases hl
+        · rw [hpc] at hf; cases hf
+          obtain ⟨gg', h1, h2, _⟩ := done_closes w p.key g gg hgg hd
+          exact ⟨gg', h1, h2⟩
+  | terminated oc =>
+    have nl : ∀ g, ¬ Leads p g := fun g => not_leads_of (by simp [hpc]) (by simp [hpc])
+    have hi : interact limit w p o0 = (w, o0, false) := by simp [interact, hpc]
+    refine ⟨by rw [hi]; exact gensStep_refl _, by rw [hi]; exact hv, by rw [hi]; simp, by rw [hi]; simp, ?_,
+      fun g gg _ _ hl => absurd hl (nl g)⟩
+    rw [hi]
+    simp only [Proc.step, hpc]
+    exact ht
+
+theorem lt_of_getP? {a : List Proc} {j : Nat} {p : Proc} (h : a[j]? = some p) : j < a.length := by
+  rcases List.getElem?_eq_some_iff.mp h with ⟨hp, _⟩; exact hp
+
+theorem lt_of_getN? {a : List Nat} {j : Nat} {p : Nat} (h : a[j]? = some p) : j < a.length := by
+  rcases List.getElem?_eq_some_iff.mp h with ⟨hp, _⟩; exact hp
+
+theorem leads_congr {p p' : Proc} (h : p'.pc = p.pc) (g : Nat) : Leads p' g ↔ Leads p g := by
+  simp [Leads, h]
+
+theorem tok_congr {n : Nat} {p p' : Proc} (h : p'.pc = p.pc) (h' : p'.previous = p.previous) (t : TokOK n p) : TokOK n p' :=
+  ⟨fun g hg => t.1 g (by rw [← h]; exact hg), fun g hg => t.2 g (by rw [← h']; exact hg)⟩
+
+theorem endCtx_pc (p : Proc) (d : Bool) : (p.endCtx d).pc = p.pc := by
+  unfold Proc.endCtx; split <;> rfl
+
+theorem endCtx_previous (p : Proc) (d : Bool) : (p.endCtx d).previous = p.previous := by
+  unfold Proc.endCtx; split <;> rfl
+
+theorem sinv_step (limit : Nat) (s : Sys) (l : Label) (h : SInv s) : SInv (s.step limit l) := by
+  cases l with
+  | spawn key probe internal =>
+    simp only [Sys.step]
+    refine ⟨h.valid, h.ginv, h.len, ?_, ?_⟩
+    · intro g q hq
+      obtain ⟨p, gg, hp, hg, hl⟩ := h.lead g q hq
+      exact ⟨p, gg, by simp only; rw [List.getElem?_append_left (lt_of_getP? hp)]; exact hp, hg, hl⟩
+    · intro i p hp
+      simp only at hp
+      by_cases hi : i < s.procs.length
+      · rw [List.getElem?_append_left hi] at hp; exact h.tok i p hp
+      · by_cases he : i = s.procs.length
+        · subst he
+          rw [List.getElem?_concat_length] at hp; cases hp
+          exact ⟨fun g hg => by simp at hg, fun g hg => by simp at hg⟩
+        · rw [List.getElem?_eq_none (by simp; omega)] at hp; cases hp
+  | ctxEnd i d =>
+    simp only [Sys.step]
+    cases hpi : s.procs[i]? with
+    | none => exact h
+    | some pi =>
+      have hil := lt_of_getP? hpi
+      simp only
+      refine ⟨h.valid, h.ginv, h.len, ?_, ?_⟩
+      · intro g q hq
+        obtain ⟨p, gg, hp, hg, hl⟩ := h.lead g q hq
+        by_cases hqi : i = q
+        · subst hqi
+          rw [hpi] at hp; cases hp
+          refine ⟨pi.endCtx d, gg, by simp [List.getElem?_set, hil], hg, ?_⟩
+          rcases hl with hl | hl
+          · exact Or.inl ((leads_congr (endCtx_pc pi d) g).mpr hl)
+          · exact Or.inr hl
+        · exact ⟨p, gg, by simp only; rw [List.getElem?_set_ne hqi]; exact hp, hg, hl⟩
+      · intro j p hp
+        simp only at hp
+        by_cases hji : i = j
+        · subst hji
+          rw [List.getElem?_set] at hp
+          simp only [if_true, hil] at hp
+          cases hp
+          exact tok_congr (endCtx_pc pi d) (endCtx_previous pi d) (h.tok i pi hpi)
+        · rw [List.getElem?_set_ne hji] at hp; exact h.tok j p hp
+  | timeout g =>
+    simp only [Sys.step]
+    have hs := step_gens s.wg (.timeout g)
+    have hlen : (s.wg.timeout g).gens.length = s.wg.gens.length := step_len_of_none s.wg (.timeout g) rfl
+    refine ⟨valid_timeout _ _ h.valid, allG_step ginv_fresh (fun _ _ => ginv_rel) hs h.ginv, by simp only; rw [hlen]; exact h.len, ?_, ?_⟩
+    · intro g' q hq
+      obtain ⟨p, gg, hp, hg, hl⟩ := h.lead g' q hq
+      obtain ⟨gg', hgg', r⟩ := hs.1 g' gg hg
+      refine ⟨p, gg', hp, hgg', ?_⟩
+      rcases hl with hl | hl
+      · exact Or.inl hl
+      · exact Or.inr (leaderDone_rel r hl)
+    · intro i p hp
+      simp only; rw [hlen]; exact h.tok i p hp
+  | run i preferCtx hit retry retryKey =>
+    simp only [Sys.step]
+    cases hpi : s.procs[i]? with
+    | none => exact h
+    | some pi =>
+      have hil := lt_of_getP? hpi
+      simp only
+      generalize ho : ({ preferCtx := preferCtx, hit := hit, retry := retry, retryKey := retryKey } : Obs) = o0
+      have rs := run_spec limit s.wg pi o0 h.valid (h.tok i pi hpi)
+      have hmono := length_mono rs.gens
+      refine ⟨rs.valid, allG_step ginv_fresh (fun _ _ => ginv_rel) rs.gens h.ginv, ?_, ?_, ?_⟩
+      · simp only
+        split
+        · rename_i hnl
+          simp only [List.length_append, List.length_cons, List.length_nil, (rs.newLeader hnl).1, h.len]
+        · rename_i hnl
+          rw [rs.noLeader (by simpa using hnl)]; exact h.len
+      · intro g q hq
+        simp only at hq
+        -- an already recorded generation?
+        by_cases hold : g < s.leaderOf.length
+        · have hq' : s.leaderOf[g]? = some q := by
+            split at hq
+            · rw [List.getElem?_append_left hold] at hq; exact hq
+            · exact hq
+          obtain ⟨p, gg, hp, hg, hl⟩ := h.lead g q hq'
+          obtain ⟨gg', hgg', r⟩ := rs.gens.1 g gg hg
+          by_cases hqi : i = q
+          · subst hqi
+            rw [hpi] at hp; cases hp
+            refine ⟨pi.step limit (interact limit s.wg pi o0).2.1, ?_⟩
+            rcases hl with hl | hl
+            · rcases rs.lead g gg hg (h.ginv g gg hg).2 hl with hl' | ⟨gg'', h1, h2⟩
+              · exact ⟨gg', by simp [List.getElem?_set, hil], hgg', Or.inl hl'⟩
+              · exact ⟨gg'', by simp [List.getElem?_set, hil], h1, Or.inr h2⟩
+            · exact ⟨gg', by simp [List.getElem?_set, hil], hgg', Or.inr (leaderDone_rel r hl)⟩
+          · refine ⟨p, gg', by simp only; rw [List.getElem?_set_ne hqi]; exact hp, hgg', ?_⟩
+            rcases hl with hl | hl
+            · exact Or.inl hl
+            · exact Or.inr (leaderDone_rel r hl)
+        · -- the generation created by this very step
+          split at hq
+          · rename_i hnl
+            have hg : g = s.leaderOf.length := by
+              have := lt_of_getN? hq
+              simp at this; omega
+            subst hg
+            rw [List.getElem?_concat_length] at hq; cases hq
+            obtain ⟨hlen, hpc⟩ := rs.newLeader hnl
+            have hex : s.leaderOf.length < (interact limit s.wg pi o0).1.gens.length := by rw [hlen, h.len]; omega
+            refine ⟨pi.step limit (interact limit s.wg pi o0).2.1, _, by simp [List.getElem?_set, hil],
+              List.getElem?_eq_getElem hex, Or.inl (Or.inl ?_)⟩
+            rw [hpc, h.len]
+          · exact absurd (lt_of_getN? hq) hold
+      · intro j p hp
+        simp only at hp ⊢
+        by_cases hji : i = j
+        · subst hji
+          rw [List.getElem?_set] at hp
+          simp only [if_true, hil] at hp
+          cases hp
+          exact rs.tok
+        · rw [List.getElem?_set_ne hji] at hp
+          exact tok_mono hmono (h.tok j p hp)
+
+theorem sys_run_cons (limit : Nat) (s : Sys) (l : Label) (ls : List Label) :
+    Sys.run limit s (l :: ls) = Sys.run limit (s.step limit l) ls := rfl
+
+theorem sinv_run (limit : Nat) (s : Sys) (ls : List Label) (h : SInv s) : SInv (Sys.run limit s ls) := by
+  induction ls generalizing s with
+  | nil => exact h
+  | cons l ls ih => rw [sys_run_cons]; exact ih _ (sinv_step limit s l h)
+
+/-- every request in the composed system moves only by `Proc.step` / `Proc.endCtx` -/
+def AllP (P : Proc → Prop) (s : Sys) : Prop := ∀ (i : Nat) (p : Proc), s.procs[i]? = some p → P p
+
+theorem allP_step {P : Proc → Prop} (limit : Nat)
+    (hinit : ∀ key probe internal, P { key := key, failureProbe := probe, internal := internal })
+    (hstep : ∀ p o, P p → P (p.step limit o)) (hctx : ∀ p d, P p → P (p.endCtx d))
+    (s : Sys) (l : Label) (h : AllP P s) : AllP P (s.step limit l) := by
+  cases l with
+  | spawn key probe internal =>
+    intro i p hp
+    simp only [Sys.step] at hp
+    by_cases hi : i < s.procs.length
+    · rw [List.getElem?_append_left hi] at hp; exact h i p hp
+    · by_cases he : i = s.procs.length
+      · subst he
+        rw [List.getElem?_concat_length] at hp; cases hp
+        exact hinit key probe internal
+      · rw [List.getElem?_eq_none (by simp; omega)] at hp; cases hp
+  | ctxEnd i d =>
+    simp only [Sys.step]
+    cases hpi : s.procs[i]? with
+    | none => exact h
+    | some pi =>
+      intro j p hp
+      simp only at hp
+      by_cases hji : i = j
+      · subst hji
+        rw [List.getElem?_set] at hp
+        simp only [if_true, lt_of_getP? hpi] at hp
+        cases hp
+        exact hctx _ _ (h i pi hpi)
+      · rw [List.getElem?_set_ne hji] at hp; exact h j p hp
+  | timeout g => exact h
+  | run i preferCtx hit retry retryKey =>
+    simp only [Sys.step]
+    cases hpi : s.procs[i]? with
+    | none => exact h
+    | some pi =>
+      intro j p hp
+      simp only at hp
+      by_cases hji : i = j
+      · subst hji
+        rw [List.getElem?_set] at hp
+        simp only [if_true, lt_of_getP? hpi] at hp
+        cases hp
+        exact hstep _ _ (h i pi hpi)
+      · rw [List.getElem?_set_ne hji] at hp; exact h j p hp
+
+theorem allP_run {P : Proc → Prop} (limit : Nat)
+    (hinit : ∀ key probe internal, P { key := key, failureProbe := probe, internal := internal })
+    (hstep : ∀ p o, P p → P (p.step limit o)) (hctx : ∀ p d, P p → P (p.endCtx d))
+    (s : Sys) (ls : List Label) (h : AllP P s) : AllP P (Sys.run limit s ls) := by
+  induction ls generalizing s with
+  | nil => exact h
+  | cons l ls ih => rw [sys_run_cons]; exact ih _ (allP_step limit hinit hstep hctx s l h)
+
 end SdnsVerif.Lemmas.OneReply
